@@ -83,6 +83,26 @@ fn run_property(env: &Env, rec: &Recorder) -> (String, String, Vec<&'static str>
             let (r, a) = props::c02::run(env, rec);
             ("exploration".into(), r, a)
         },
+        "C04" =>
+        {
+            let (r, a) = props::c04::run(env, rec);
+            ("exploration".into(), r, a)
+        },
+        "C15" =>
+        {
+            let (r, a) = props::c15::run(env, rec);
+            ("exploration".into(), r, a)
+        },
+        "C16" =>
+        {
+            let (r, a) = props::c16::run(env, rec);
+            ("exploration".into(), r, a)
+        },
+        "C09" =>
+        {
+            let (r, a) = props::c09::run(env, rec);
+            ("translation_validation".into(), r, a)
+        },
         "C12" =>
         {
             let (r, a) = props::c12::run(env, rec);
